@@ -62,17 +62,23 @@ NOISE_EPS = 1e-9
 def execute(scn):
     res = _execute(scn)
     if res["verdicts"] and not confirm_chain(scn, _execute, lambda r: r["verdicts"], tol_fn,
-                                            PROPERTY, res["stats"]["counters"], NOISE_EPS):
+                                            PROPERTY, res["stats"]["counters"], NOISE_EPS,
+                                            twin_world=_twin_world):
         res["verdicts"] = []
     return res
+
+
+def _twin_world(scn):
+    specB = copy.deepcopy(scn["world"])
+    specB["transform"] = dict(specB.get("transform") or {})
+    specB["transform"]["k"] = scn["twin"]["k"]
+    return specB
 
 
 def _execute(scn):
     verdicts, counters, maxima = [], {}, {}
     wA, trA, _ = run_traced(scn["world"], scn["ops"])
-    specB = copy.deepcopy(scn["world"])
-    specB["transform"] = dict(specB.get("transform") or {})
-    specB["transform"]["k"] = scn["twin"]["k"]
+    specB = _twin_world(scn)
     wB, trB, _ = run_traced(specB, scn["ops"])
     compare_traces(trA, trB, lambda m, A: A, lambda F: F, tol_fn,
                    PROPERTY, "timescale", verdicts, counters, maxima)
